@@ -495,8 +495,12 @@ where
         self: &'a mut Pin<&mut Self>,
         cx: &mut Context<'_>,
     ) -> Poll<Option<Result<(), ChannelError<C::Error>>>> {
-        while self.poll_ready(cx)?.is_pending() {
+        if self.poll_ready(cx)?.is_pending() {
+            // Flushing may make room. If the transport is still not ready afterwards, it has
+            // registered the waker, so yield instead of retrying within this poll: a transport
+            // whose readiness does not depend on flushing would otherwise be polled forever.
             ready!(self.poll_flush(cx)?);
+            ready!(self.poll_ready(cx)?);
         }
         Poll::Ready(Some(Ok(())))
     }
